@@ -41,7 +41,8 @@ def key_of(ev, seg):
     k = ev["e"]
     if k == "ints":
         bad = [i for i in ev["items"] if i.get("wres") != "ok" or i.get("rres") != "ok" or i.get("rv") != i.get("x")
-               or i.get("rw") or not i.get("canary", True)]
+               or i.get("rw") or not i.get("canary", True) or i.get("xres", "ok") != "ok" or i.get("sres", "cap") != "cap"
+               or i.get("xenc", i.get("enc")) != i.get("enc")]
         x = bad[0]["x"] if bad else ev["items"][0]["x"]
         return "write_int/read_int:x=%s" % x
     if k == "decs":
@@ -61,6 +62,7 @@ def tlc_configs(tier):
         ("MC_Int.tla", "MC_Int_%s.cfg" % t, "VarInt integer laws", False),
         ("MC_Bytes.tla", "MC_Bytes_%s.cfg" % t, "VarInt decoder laws", False),
         ("MC_Packer.tla", "MC_Packer_rt_%s.cfg" % t, "Packer round trip", True),
+        ("MC_Packer.tla", "MC_Packer_bands_%s.cfg" % t, "Packer exact fit (magnitude bands)", True),
         ("MC_Packer.tla", "MC_Packer_any_%s.cfg" % t, "Unpacker totality", True),
     ]
 
@@ -76,7 +78,7 @@ def run(ctx):
     # ---- (1)+(A): model checking with export, piped into the real code
     def a_job(module, cfg, label, cov):
         mm = os.path.join(ctx.workdir, "mismatch-%s.ndjson" % cfg.replace(".cfg", ""))
-        res, summ, out, rc = codec.pipe(ctx, sd, module, cfg, [vh, "replay", mm], label, workers=workers,
+        res, summ, out, rc = codec.pipe(ctx, sd, module, cfg, [vh, "replay", mm], label, workers=(workers + 2 if "Bytes" in module else workers),
                                         timeout=tmo, coverage=cov)
         return (module, cfg, label, cov, mm, res, summ, out, rc)
 
@@ -89,7 +91,7 @@ def run(ctx):
         return rc, out
 
     jobs = [(lambda m=m, c=c, l=l, v=v: a_job(m, c, l, v)) for (m, c, l, v) in tlc_configs(ctx.tier)]
-    results = codec.parallel(jobs + [b_job], max_workers=5)
+    results = codec.parallel(jobs + [b_job], max_workers=6)
     brc, bout = results[-1]
 
     evaluations, nontrivial = 0, 0
